@@ -28,8 +28,8 @@ func buildIndexFile(r int, file uint32, label string) ([]byte, []*iRec) {
 	var data []byte
 	var recs []*iRec
 	for i := 0; i < r; i++ {
-		b := kBuckets[vrt.Choose(label+"-bucket", len(kBuckets))]
-		n := []int{0, 14}[vrt.Choose(label+"-listlen", 2)]
+		b := kBuckets[vrt.Choose(label+"-bucket", vrt.Param("nbuckets", len(kBuckets)))]
+		n := []int{14, 0}[vrt.Choose(label+"-listlen", vrt.Param("listlens", 2))]
 		body := make([]byte, 4, 4+n)
 		binary.LittleEndian.PutUint32(body, uint32(b))
 		body = append(body, vrt.Bytes(label+"-list", n)...)
@@ -67,8 +67,8 @@ func Verif_KIGC() {
 	r := 1 + vrt.Choose("r", R)
 	data0, recs := buildIndexFile(r, 0, "f0")
 	lastStart := recs[len(recs)-1].start
-	limits := []uint32{uint32(lastStart) + 1, uint32(len(data0)), uint32(len(data0)) + 1, 1 << 30}
-	maxFileSize := limits[vrt.Choose("maxfilesize", len(limits))]
+	limits := []uint32{1 << 30, uint32(lastStart) + 1, uint32(len(data0)), uint32(len(data0)) + 1}
+	maxFileSize := limits[vrt.Choose("maxfilesize", vrt.Param("nlimits", len(limits)))]
 
 	// optional torn tail: a size prefix announcing more bytes than are present
 	torn := 0
